@@ -155,39 +155,46 @@ theorem C09_getOutput_source_tie :
 dtype arguments of its `_get_output` call and the calls `out` is forwarded to (the wrappers with open
 known findings — gaussian filters, convolve1d, zoom — and `remove_bordering`, which documents no
 requirement, are not pinned here so that their repair does not break the tie). -/
-def C09.expectedSites : List (String × String × List String × List String) := [
-  ("morph.dilate", "out,output", ["get_output(A,out,None,output)"], []),
-  ("morph.erode", "out,output", ["get_output(A,out,None,output)"], []),
-  ("morph.cerode", "out,output", ["get_output(f,out,None,output)", "forward:maximum(out=f)"], []),
-  ("morph.hitmiss", "out,output", [], ["out.shape != input.shape->ValueError", "not out.flags.c_contiguous->ValueError"]),
-  ("morph.open", "out,output", ["forward:erode(out=out)", "forward:dilate(out=eroded)"], []),
-  ("morph.close", "out,output", ["forward:dilate(out=out)", "forward:erode(out=dilated)"], []),
-  ("morph.majority_filter", "out,output", ["get_output(img,out,np.bool_,output)"], []),
-  ("morph.locmax", "out,output", ["get_output(f,out,np.bool_,output)"], []),
-  ("morph.locmin", "out,output", ["get_output(f,out,np.bool_,output)"], []),
-  ("morph.regmin", "out,output", ["get_output(f,out,np.bool_,output)"], []),
-  ("morph.regmax", "out,output", ["get_output(f,out,np.bool_,output)"], []),
-  ("morph.subm", "out", ["get_output(a,out,None)"], []),
-  ("morph.tophat_close", "out", ["get_output(f,out,None)", "forward:subm(out=out)"], []),
-  ("morph.tophat_open", "out", ["get_output(f,out,None)", "forward:subm(out=out)"], []),
-  ("convolve.convolve", "out,output", ["get_output(f,out,None,output)"], []),
-  ("convolve.median_filter", "out,output", ["get_output(f,out,None,output)"], []),
-  ("convolve.mean_filter", "out", ["get_output(f,out,np.float64)"], []),
-  ("convolve.rank_filter", "out,output", ["get_output(f,out,None,output)"], []),
-  ("convolve.template_match", "out,output", ["get_output(f,out,None,output)"], []),
-  ("labeled.label", "out,output", ["get_output(array,out,np.int32,output)"], []),
-  ("labeled.border", "out,output", ["get_output(labeled,out,bool,output)"], []),
-  ("labeled.borders", "out,output", ["get_output(labeled,out,bool,output)"], []),
-  ("interpolate.spline_filter1d", "out,output", ["get_output(array,out,dtype,output)"], []),
-  ("interpolate.spline_filter", "out,output", ["get_output(array,out,dtype,output)"], []),
-  ("interpolate.shift", "out,output", ["get_output(array,out,np.float64,output)"], [])]
+def C09.expectedSites : List (String × List String × List String) := [
+  ("morph.dilate", ["get_output(A,out,None,output)"], []),
+  ("morph.erode", ["get_output(A,out,None,output)"], []),
+  ("morph.cerode", ["get_output(f,out,None,output)", "forward:maximum(out=f)"], []),
+  ("morph.hitmiss", [], ["out.shape != input.shape->ValueError", "not out.flags.c_contiguous->ValueError"]),
+  ("morph.open", ["forward:erode(out=out)", "forward:dilate(out=eroded)"], []),
+  ("morph.close", ["forward:dilate(out=out)", "forward:erode(out=dilated)"], []),
+  ("morph.majority_filter", ["get_output(img,out,np.bool_,output)"], []),
+  ("morph.locmax", ["get_output(f,out,np.bool_,output)"], []),
+  ("morph.locmin", ["get_output(f,out,np.bool_,output)"], []),
+  ("morph.regmin", ["get_output(f,out,np.bool_,output)"], []),
+  ("morph.regmax", ["get_output(f,out,np.bool_,output)"], []),
+  ("morph.subm", ["get_output(a,out,None)"], []),
+  ("morph.tophat_close", ["get_output(f,out,None)", "forward:subm(out=out)"], []),
+  ("morph.tophat_open", ["get_output(f,out,None)", "forward:subm(out=out)"], []),
+  ("convolve.convolve", ["get_output(f,out,None,output)"], []),
+  ("convolve.median_filter", ["get_output(f,out,None,output)"], []),
+  ("convolve.mean_filter", ["get_output(f,out,np.float64)"], []),
+  ("convolve.rank_filter", ["get_output(f,out,None,output)"], []),
+  ("convolve.template_match", ["get_output(f,out,None,output)"], []),
+  ("labeled.label", ["get_output(array,out,np.int32,output)"], []),
+  ("labeled.border", ["get_output(labeled,out,bool,output)"], []),
+  ("labeled.borders", ["get_output(labeled,out,bool,output)"], []),
+  ("interpolate.spline_filter1d", ["get_output(array,out,dtype,output)"], []),
+  ("interpolate.spline_filter", ["get_output(array,out,dtype,output)"], []),
+  ("interpolate.shift", ["get_output(array,out,np.float64,output)"], [])]
+
+/-- the current source still contains, for this wrapper, every `_get_output` call / forwarding / own
+raise-test the model relies on (additional ones — e.g. a repaired `output=` alias — are allowed) -/
+def C09.siteOk (e : String × List String × List String) : Bool :=
+  Generated.outSites.any fun s =>
+    s.1 == e.1 && e.2.1.all (fun x => s.2.2.1.contains x) && e.2.2.all (fun x => s.2.2.2.contains x)
 
 /-- every wrapper listed in `C09.expectedSites` still validates/forwards `out` in the current source
-exactly as the buffer-flow models assume (a weakened or removed guard changes `Generated.outSites`
-and breaks this theorem); and the public functions with an out/output parameter are exactly the
+as the buffer-flow models assume: the `_get_output` call with its array and dtype arguments, the
+forwarding of `out`, hitmiss's own tests are all still there (a weakened or removed guard changes
+`Generated.outSites` and breaks this theorem; extra validation does not); and the public functions with an out/output parameter are exactly the
 known ones (a new one must be modelled). -/
 theorem C09_out_sites_source_tie :
-    (C09.expectedSites.all fun e => Generated.outSites.contains e) = true ∧
+    C09.expectedSites.all C09.siteOk = true ∧
     Generated.outSites.map (·.1) =
       ["morph.dilate", "morph.erode", "morph.cerode", "morph.hitmiss", "morph.open", "morph.close",
        "morph.majority_filter", "morph.locmax", "morph.locmin", "morph.regmin", "morph.regmax", "morph.subm",
